@@ -4,6 +4,8 @@
 //!        method_kind: 6 GET | 7 POST | 8 PUT | 9 HEAD | 1 CONNECT; target: path (origin-form; Host: h is added)
 //!        headers: flat [name_len, name..., value_len, value...]*; body_to_send: number of zero bytes the client sends as body
 //!        auth: 1 = a registry authenticator is configured (the request carries no credentials)
+//!        cfg[9] (optional): 0 = the door after the TLS handshake | 1 = the real listener over TLS | 3 = the real listener over QUIC + HTTP/3
+//!        (the hosts are then localhost / ping.localhost / speed.localhost / rp.localhost and the SNI selects the channel)
 //! out: [status] [body_len, body_all_zero] origin_request_head [origin_accepts, relayed_ok] response_headers(flat, sorted)
 use crate::util::*;
 use std::sync::atomic::{AtomicUsize, Ordering};
@@ -91,55 +93,155 @@ pub fn session(toks: Vec<Tok>) -> Vec<Tok> {
                 }
             });
         }
-        let mut b = Settings::builder()
-            .listen_address("127.0.0.1:1")
-            .unwrap()
-            .listen_protocols(ListenProtocolSettings {
-                http1: Some(Http1Settings::builder().build()),
-                http2: Some(Http2Settings::builder().build()),
-                quic: None,
-            })
-            .allow_private_network_connections(cfg[2] == 1)
-            .speedtest_enable(cfg[4] == 1)
-            .connection_establishment_timeout(Duration::from_millis(if cfg.len() > 8 && cfg[8] > 0 { cfg[8] as u64 } else { 1500 }));
-        if cfg.len() > 7 && cfg[7] > 0 {
-            // the service handlers' request timeout
-            b = b.tls_handshake_timeout(Duration::from_millis(cfg[7] as u64));
-        }
-        if cfg[3] == 1 {
-            b = b.reverse_proxy(
-                ReverseProxySettings::builder()
-                    .server_address(origin_addr.to_string().as_str())
-                    .unwrap()
-                    .path_mask("/rp".to_string())
-                    .build()
-                    .unwrap(),
-            );
-        }
-        let settings = b.build().unwrap();
+        let front = cfg.get(9).copied().unwrap_or(0);
+        let cfg2 = cfg.clone();
+        let make = move |addr: std::net::SocketAddr| {
+            let cfg = &cfg2;
+            let mut b = Settings::builder()
+                .listen_address(addr)
+                .unwrap()
+                .listen_protocols(ListenProtocolSettings {
+                    http1: Some(Http1Settings::builder().build()),
+                    http2: Some(Http2Settings::builder().build()),
+                    quic: if front == 3 { Some(trusttunnel::settings::QuicSettings::builder().build()) } else { None },
+                })
+                .allow_private_network_connections(cfg[2] == 1)
+                .speedtest_enable(cfg[4] == 1)
+                .connection_establishment_timeout(Duration::from_millis(if cfg.len() > 8 && cfg[8] > 0 { cfg[8] as u64 } else { 1500 }));
+            if cfg.len() > 7 && cfg[7] > 0 {
+                // the service handlers' request timeout
+                b = b.tls_handshake_timeout(Duration::from_millis(cfg[7] as u64));
+            }
+            if cfg[3] == 1 {
+                b = b.reverse_proxy(
+                    ReverseProxySettings::builder()
+                        .server_address(origin_addr.to_string().as_str())
+                        .unwrap()
+                        .path_mask("/rp".to_string())
+                        .build()
+                        .unwrap(),
+                );
+            }
+            b.build().unwrap()
+        };
         let auth: Option<Arc<dyn Authenticator>> =
             if cfg[5] == 1 { Some(Arc::new(RegistryBasedAuthenticator::new(&crate::engines::c01::clients()))) } else { None };
-        let ctx = trusttunnel::verif::ctx::make(settings, crate::ctxutil::basic_hosts(), auth).unwrap();
         let channel = match cfg[0] {
             0 => session::Channel::Tunnel,
             1 => session::Channel::Ping,
             2 => session::Channel::Speedtest,
             _ => session::Channel::ReverseProxy,
         };
-        let http2 = cfg[1] == 1;
+        let http2 = cfg[1] == 1 || front == 3;
         let read_delay = cfg[6] as u64;
-        let (client, server) = tokio::io::duplex(1 << 16);
-        let ctx2 = ctx.clone();
-        let task = tokio::spawn(async move {
-            let _ = session::run(&ctx2, channel, http2, server, "198.51.100.7:40000".parse().unwrap(), "localhost".into(), None).await;
-        });
+        let rp_on = cfg[3] == 1;
+        let front_hosts = move || {
+            use trusttunnel::settings::TlsHostsSettings;
+            let h = crate::ctxutil::host;
+            let mut b = TlsHostsSettings::builder()
+                .main_hosts(vec![h("localhost")])
+                .ping_hosts(vec![h("ping.localhost")])
+                .speedtest_hosts(vec![h("speed.localhost")]);
+            if rp_on {
+                b = b.reverse_proxy_hosts(vec![h("rp.localhost")]);
+            }
+            b.build().unwrap()
+        };
+        let sni_name = ["localhost", "ping.localhost", "speed.localhost", "rp.localhost"][(cfg[0] as usize).min(3)];
         let mut status = 0u128;
         let mut resp_headers: Vec<(String, Vec<u8>)> = vec![];
         let mut body_len = 0usize;
         let mut all_zero = true;
         let mut relayed_ok = 0u128;
-        if !http2 {
-            let mut client = client;
+        let mut _endpoint = None;
+        let mut task = None;
+        type BoxIo = Box<dyn crate::engines::c01::Io>;
+        let client: Option<BoxIo> = if front == 0 {
+            let ctx = trusttunnel::verif::ctx::make(make("127.0.0.1:1".parse().unwrap()), crate::ctxutil::basic_hosts(), auth).unwrap();
+            let (client, server) = tokio::io::duplex(1 << 16);
+            task = Some(tokio::spawn(async move {
+                let _ = session::run(&ctx, channel, http2, server, "198.51.100.7:40000".parse().unwrap(), "localhost".into(), None).await;
+            }));
+            Some(Box::new(client))
+        } else {
+            match crate::front::start(make, front_hosts, auth).await {
+                None => return vec![vec![996]],
+                Some(ep) => {
+                    let addr = ep.addr;
+                    _endpoint = Some(ep);
+                    if front == 3 {
+                        None
+                    } else {
+                        let alpn: &[&[u8]] = if http2 { &[b"h2"] } else { &[b"http/1.1"] };
+                        match crate::front::tls_connect(addr, sni_name, alpn).await {
+                            Some(t) => Some(Box::new(t)),
+                            None => return vec![vec![0], vec![0, 1], vec![], vec![accepts.load(Ordering::SeqCst) as u128, 0], vec![]],
+                        }
+                    }
+                }
+            }
+        };
+        if front == 3 {
+            // HTTP/3 over the real QUIC listener
+            let addr = _endpoint.as_ref().unwrap().addr;
+            if let Some(mut c) = crate::front::H3Client::connect(addr, sni_name).await {
+                let mut hs: Vec<(Vec<u8>, Vec<u8>)> = vec![
+                    (b":method".to_vec(), method_of(kind).as_bytes().to_vec()),
+                    (b":scheme".to_vec(), b"https".to_vec()),
+                    (b":authority".to_vec(), b"h".to_vec()),
+                    (b":path".to_vec(), target.as_bytes().to_vec()),
+                ];
+                for (n, v) in &headers {
+                    if http::HeaderValue::from_bytes(v).is_ok() && !n.eq_ignore_ascii_case("upgrade") && !n.eq_ignore_ascii_case("connection") {
+                        hs.push((n.to_lowercase().into_bytes(), v.clone()));
+                    }
+                }
+                if let Some(id) = c.request(&hs, body_to_send == 0 && kind != 7) {
+                    if body_to_send > 0 {
+                        let zeros = vec![0u8; 16384];
+                        let mut left = body_to_send;
+                        let started = tokio::time::Instant::now();
+                        while left > 0 && !c.is_shut() && started.elapsed() < Duration::from_secs(15) {
+                            let n = c.send_some(id, &zeros[..left.min(zeros.len())]);
+                            left -= n;
+                            c.drive(Duration::from_millis(if n == 0 { 5 } else { 0 }), |_| false).await;
+                        }
+                        c.send_body(id, &[], true).await;
+                    }
+                    // read to the end of the response (slowly when asked to)
+                    let started = tokio::time::Instant::now();
+                    let mut idle = tokio::time::Instant::now();
+                    let mut seen = 0usize;
+                    loop {
+                        c.drive(Duration::from_millis(20), |x| x.streams[&id].finished || x.streams[&id].reset).await;
+                        let st = &c.streams[&id];
+                        if st.data.len() != seen {
+                            seen = st.data.len();
+                            idle = tokio::time::Instant::now();
+                        }
+                        if st.finished || st.reset || c.is_shut() || idle.elapsed() > Duration::from_secs(4) || started.elapsed() > Duration::from_secs(60) {
+                            break;
+                        }
+                        if read_delay > 0 {
+                            tokio::time::sleep(Duration::from_millis(read_delay)).await;
+                        }
+                    }
+                    let st = c.streams[&id].clone();
+                    status = st.status() as u128;
+                    resp_headers = st
+                        .headers
+                        .unwrap_or_default()
+                        .into_iter()
+                        .filter(|(n, _)| !n.starts_with(b":"))
+                        .map(|(n, v)| (String::from_utf8_lossy(&n).to_string(), v))
+                        .collect();
+                    body_len = st.data.len();
+                    all_zero = st.data.iter().all(|b| *b == 0);
+                }
+                c.close();
+            }
+        } else if !http2 {
+            let mut client = client.unwrap();
             let mut head = format!("{} {} HTTP/1.1\r\nHost: h\r\n", method_of(kind), target).into_bytes();
             for (n, v) in &headers {
                 head.extend_from_slice(n.as_bytes());
@@ -217,7 +319,7 @@ pub fn session(toks: Vec<Tok>) -> Vec<Tok> {
                 }
             }
         } else {
-            let hs = tokio::time::timeout(Duration::from_secs(3), h2::client::handshake(client)).await;
+            let hs = tokio::time::timeout(Duration::from_secs(3), h2::client::handshake(client.unwrap())).await;
             if let Ok(Ok((send, conn))) = hs {
                 let driver = tokio::spawn(async move {
                     let _ = conn.await;
@@ -273,7 +375,9 @@ pub fn session(toks: Vec<Tok>) -> Vec<Tok> {
                 driver.abort();
             }
         }
-        let _ = tokio::time::timeout(Duration::from_millis(300), task).await;
+        if let Some(task) = task {
+            let _ = tokio::time::timeout(Duration::from_millis(300), task).await;
+        }
         resp_headers.sort();
         let mut h = vec![];
         for (n, v) in &resp_headers {
